@@ -21,7 +21,7 @@ var hsFuncs = []string{
 	"writePQServerResponseHidden", "readPQServerResponseHidden",
 	"deriveFinalKeys", "decryptCookie", "writeCookie",
 	"beginPQDiscoverableHandshake", "beginPQHiddenHandshake", "handlePQClientHello", "handlePQClientRequestHidden",
-	"finishHandshake", "clientHandshakeLocked",
+	"finishHandshake", "clientHandshakeLocked", "CookieAD",
 }
 
 // cases of the message-type switch in Server.readPacket
@@ -190,6 +190,11 @@ func (p *progBuilder) call(c *ast.CallExpr, fn string, list []ast.Stmt, i int) {
 		p.emit(".verifyCerts %s", b2l(errChecked(list, i)))
 	case strings.HasSuffix(fn, "RekeyFromSqueeze"):
 		p.emit(".rekey")
+	case fn == "h.Write":
+		// hash input of CookieAD
+		p.emit(".absorb %s", q("hash:"+arg(0)))
+	case fn == "CookieAD":
+		p.emit(".compute %s true", q("CookieAD("+arg(0)+", "+arg(1)+")"))
 	case strings.HasSuffix(fn, ".DH") || strings.HasSuffix(fn, ".Agree") || strings.HasSuffix(fn, ".Decapsulate") ||
 		fn == "keys.Encapsulate" || strings.HasSuffix(fn, "decryptCookie") || strings.HasSuffix(fn, "writeCookie") ||
 		strings.HasSuffix(fn, "ReplayPQDuplexFromCookie") || strings.HasSuffix(fn, "aead.Open") || strings.HasSuffix(fn, "aead.Seal") ||
